@@ -31,6 +31,7 @@ type HarnessResult struct {
 	AssertQ      int
 	CrossChecked int
 	Covers       map[string]int
+	ForkSites    map[string]int
 	WantCovers   []string
 	Funcs        map[string]int
 	Stubs        map[string]int
@@ -143,6 +144,12 @@ func (e *Engine) Explore(fn *ssa.Function, opts ExploreOpts) *HarnessResult {
 				}
 				for c := range pr.Covers {
 					res.Covers[c]++
+				}
+				for k, v := range pr.ForkSites {
+					if res.ForkSites == nil {
+						res.ForkSites = map[string]int{}
+					}
+					res.ForkSites[k] += v
 				}
 				for f, n := range pr.Funcs {
 					res.Funcs[f] += n
@@ -371,6 +378,7 @@ func (e *Engine) runPath(fn *ssa.Function, solver *Solver, prefix []uint64, opts
 	pr.Forks = r.nForks
 	pr.Forced = r.nForced
 	pr.Covers = r.covers
+	pr.ForkSites = r.forkSites
 	pr.assertions = r.assertions
 	pr.assertQ = r.assertQueries
 	pr.crossChecked = r.crossChecked
